@@ -157,7 +157,13 @@ fn complete_statements(
             (stmt, tokens)
         })
         .find(|(stmt, tokens)| {
-            if stmt.to_text_range(tokens).contains(&position) {
+            // the comments in front of a statement are not part of it
+            let range = stmt.to_text_range(tokens);
+            let start = tokens
+                .iter()
+                .find(|token| !matches!(token.token_type, TokenType::Comment(_)))
+                .map_or(range.start, |token| token.range.start);
+            if (start..range.end).contains(&position) {
                 true
             } else {
                 last_stmt_is_if = matches!(stmt.as_ref(), Statement::If(_));
